@@ -58,7 +58,7 @@ def register(w):
                         fields={'_cache': 'Any', '_cache_lock': 'Any'}))
   w.add(Contract(
       'malt.pyct.transpiler.PyToPy.transform_function', mode='event', serves=['C10', 'C09'],
-      callbacks=['get_caching_key', 'get_extra_locals'],
+      callbacks=['get_caching_key', 'get_extra_locals', 'create', 'instantiate'],
       spec='''
 def spec(self, fn, user_context):
   cache_subkey = self.get_caching_key(user_context)
